@@ -11,21 +11,23 @@ from hyp import Violation
 
 PID = "C12"
 RULE = ("sequences (<=30 steps) of bound operations on a Vector, a Map, a string, a Pair and range views over them, index/position arguments drawn "
-        "from {-huge,-1,0,size-1,size,size+1,INT_MAX,huge} and random; oracle = Python list/dict/str model of the std:: semantics checked after "
+        "from {-huge,-1,0,size-1,size,size+1,INT_MAX,2^32-1, 2^32, 2^32+size-1, 2^40+1, -2^32+1} and random; oracle = Python list/dict/str model of the std:: semantics checked after "
         "every step (result or 'raised', then a full scan of the container); range views are dropped when their container is structurally "
         "modified. non-trivial = sequence containing >=1 boundary index/position or an operation on an empty container; distinct = distinct sequences")
 
 NPOS = 18446744073709551615
-IDX = ["neghuge", "neg1", "zero", "last", "size", "size1", "intmax", "huge", "rnd0", "rnd1", "rnd2", "rnd3"]
+IDX = ["neghuge", "neg1", "zero", "last", "size", "size1", "intmax", "huge", "rnd0", "rnd1", "rnd2", "rnd3",
+       "wrap0", "wraplast", "wrap40", "negwrap"]        # 64-bit values whose low 32 bits look like a valid position
 
 
 def resolve(ix, size):
     return {"neghuge": -2147483648, "neg1": -1, "zero": 0, "last": size - 1, "size": size, "size1": size + 1, "intmax": 2147483647,
-            "huge": 4294967295, "rnd0": 0, "rnd1": 1, "rnd2": 2, "rnd3": 3}[ix]
+            "huge": 4294967295, "rnd0": 0, "rnd1": 1, "rnd2": 2, "rnd3": 3,
+            "wrap0": 2 ** 32, "wraplast": 2 ** 32 + max(size - 1, 0), "wrap40": 2 ** 40 + 1, "negwrap": -(2 ** 32) + 1}[ix]
 
 
 def boundary(ix, size):
-    return ix in ("neghuge", "neg1", "size", "size1", "intmax", "huge", "last") or (ix == "zero" and size == 0)
+    return ix in ("neghuge", "neg1", "size", "size1", "intmax", "huge", "last", "wrap0", "wraplast", "wrap40", "negwrap") or (ix == "zero" and size == 0)
 
 
 def lit_int(x):
